@@ -13,9 +13,8 @@ RULE = ("MGA coordinates: zone 46..59, easting 100 000..900 000 m, latitude -60.
         "points down to 1e-8 deg either side of a zone boundary, height absent / 0 / -100..3000 m, covariance absent / PSD 3x3 (all "
         "ranks) / 3x1 variance column, floats, whole-metre ints, numpy float64; for the algebraic part the whole southern "
         "UTM domain; both directions; non-trivial = more than 0.5 deg from the central meridian")
-ASSUMPTIONS = ["a 3x1 variance column is outside the documented domain of transform_mga* ('3*3 numpy array'): it reaches "
-               "conform7's vcv[i, j] and raises IndexError; the statement gives no expected value for it, so it is exercised under "
-               "C16 (vcv_local2cart / vcv_cart2local) and not asserted here (DESIGN 2)",
+ASSUMPTIONS = ["a 3x1 variance column is an uncorrelated (diagonal) local covariance: the expected result is the full propagation of "
+               "diag(v) (the quantifier lists the column form; the IndexError it used to raise was repaired, DESIGN 11.1)",
                "ground positions in different zones are compared through their geographic coordinates (local metric)",
                "GDA94 and GDA2020 both use GRS80 / UTM (the functions take no ellipsoid argument)",
                "algebraic part: latitude within [-79.99, -0.001] and |longitude| <= 179.99 so that the ~1.8 m datum shift cannot leave "
